@@ -295,10 +295,10 @@ def _aead_source(ctx, targets=('TJ.Props.C05Gen', 'TJ.Props.C02Gen')):
     ok, stats = taint.regenerate(ctx, targets)
     ctx.extra_cov['minic'] = {k: stats.get(k) for k in ('functions', 'translated', 'errors', 'build_ok')}
     if stats.get('errors'): ctx.broken_proofs.append('tools/c2lean.py cannot translate the current sources: ' + '; '.join(stats['errors'][:3]))
-    elif not ok: ctx.broken_proofs.append('TJ.Props.C02Gen / C05Gen (regenerated tinyjambu_*_aead_encrypt, _setup_*, _absorb_*, _generate_tag_*, _permutation_* = specification) no longer check: ' + re.sub(r'\s+', ' ', stats.get('build_log_tail', ''))[-600:])
+    elif not ok: ctx.broken_proofs.append('TJ.Props.C02Gen / C05Gen (regenerated tinyjambu_*_aead_encrypt / _decrypt, _setup_*, _absorb_*, _generate_tag_*, _permutation_* = specification / model) no longer check: ' + re.sub(r'\s+', ' ', stats.get('build_log_tail', ''))[-600:])
 
 def check_C01(ctx):
-    ctx.build(); _aead_source(ctx, ('TJ.Props.C02Gen',)); ctx.lean(extra_modules=['TJ.Props.C02Gen'])
+    ctx.build(); _aead_source(ctx, ('TJ.Props.C02Gen', 'TJ.Props.C01Gen')); ctx.lean(extra_modules=['TJ.Props.C02Gen', 'TJ.Props.C01Gen'])
     _roundtrip(ctx, 'aead')
     if ctx.tier == 'thorough': _matrix(ctx, 'aead')
 
@@ -436,17 +436,17 @@ def _checktag_stream(ctx):
 def _check_tag_source(ctx):
     """TJ.Props.C03Gen: the regenerated term of tinyjambu_aead_check_tag computes the model's checkTag for all tags, lengths and contents"""
     import taint
-    ok, stats = taint.regenerate(ctx, ('TJ.Props.C03Gen',))
+    ok, stats = taint.regenerate(ctx, ('TJ.Props.C03Gen', 'TJ.Props.C01Gen'))
     ctx.extra_cov['minic'] = {k: stats.get(k) for k in ('functions', 'translated', 'errors', 'build_ok')}
     if stats.get('errors'): ctx.broken_proofs.append('tools/c2lean.py cannot translate the current sources: ' + '; '.join(stats['errors'][:3]))
-    elif not ok: ctx.broken_proofs.append('TJ.Props.C03Gen (regenerated tinyjambu_aead_check_tag = model checkTag) no longer checks: ' + re.sub(r'\s+', ' ', stats.get('build_log_tail', ''))[-600:])
+    elif not ok: ctx.broken_proofs.append('TJ.Props.C03Gen / C01Gen (regenerated tinyjambu_aead_check_tag = model checkTag; regenerated tinyjambu_*_aead_decrypt = model aeadDecrypt) no longer check: ' + re.sub(r'\s+', ' ', stats.get('build_log_tail', ''))[-600:])
 
 def check_C03(ctx):
-    ctx.build(); _check_tag_source(ctx); ctx.lean(extra_modules=['TJ.Props.C03Gen'])
+    ctx.build(); _check_tag_source(ctx); ctx.lean(extra_modules=['TJ.Props.C03Gen', 'TJ.Props.C01Gen'])
     _tamper(ctx, 'aead'); _checktag_stream(ctx)
 
 def check_C04(ctx):
-    ctx.build(); _check_tag_source(ctx); ctx.lean(extra_modules=['TJ.Props.C03Gen'])
+    ctx.build(); _check_tag_source(ctx); ctx.lean(extra_modules=['TJ.Props.C03Gen', 'TJ.Props.C01Gen'])
     _tamper(ctx, 'aead'); _tamper(ctx, 'siv'); _checktag_stream(ctx)
 
 def check_C08(ctx):
